@@ -13,6 +13,7 @@
      4 parallel       0=1=2            (two channels between each pair)
      5 triangle+tail  0-1-2-3 / 0-2
      6 mesh5          5 nodes, 7 channels
+     7 line5  8 line6  9 line7   single paths of 4, 5 and 6 hops (families D, F, G only)
    One channel of `main` (position `focus`) gets the parameter class under test in its forward
    direction; all other directions get the default policy of the fee class.                     *)
 EXTENDS Router, Json
@@ -30,6 +31,9 @@ Topo(t) ==
     [] t = 6 -> [n |-> 5, payee |-> 4,
                  chans |-> <<<<0,1>>, <<1,2>>, <<2,4>>, <<0,3>>, <<3,4>>, <<1,3>>, <<2,3>>>>,
                  main |-> <<1,2,3>>]
+    [] t \in {7, 8, 9} ->   \* a line of t - 3 channels: 0-1-...-(t-3)
+       [n |-> t - 2, payee |-> t - 3, chans |-> [i \in 1..(t - 3) |-> <<i - 1, i>>],
+        main |-> [i \in 1..(t - 3) |-> i]]
 
 FeeClass(f) ==
   CASE f = "zero"     -> [base |-> 0,      prop |-> 0]
@@ -55,11 +59,25 @@ FocusPol(p) ==
       d == DefPol(p.fee)
       mn == CASE p.min = "low" -> 1 [] p.min = "eq" -> need [] p.min = "above" -> need + 1
               [] p.min = "x2" -> 2 * p.amt [] p.min = "x4" -> 4 * p.amt + 1
+              \* relative to what the hop carries: twice that; what it carries when the router searches at
+              \* 3 * amt (its "recommended value", the largest amount it raises to), and one above that
+              [] p.min = "n2" -> 2 * need
+              [] p.min = "n3" -> NeedMain(p.topo, p.fee, 3 * p.amt, p.focus)
+              [] p.min = "n3above" -> NeedMain(p.topo, p.fee, 3 * p.amt, p.focus) + 1
       mx == CASE p.max = "below" -> Max2(1, need - 1) [] p.max = "eq" -> need
               [] p.max = "above" -> need + 1 [] p.max = "half" -> Max2(1, need \div 2)
               [] p.max = "big" -> Big
   IN [d EXCEPT !.min = mn, !.max = mx,
                !.en = (p.state # "disabled"), !.has = (p.state # "noupdate")]
+
+(* the second feature of family F, on main channel p.g *)
+SecondPol(p) ==
+  LET need == NeedMain(p.topo, p.fee, p.amt, p.g)
+      d == DefPol(p.fee)
+  IN CASE p.k2 = "min2"  -> [d EXCEPT !.min = 2 * need]
+       [] p.k2 = "maxeq" -> [d EXCEPT !.max = need]
+       [] p.k2 = "max2"  -> [d EXCEPT !.max = 2 * need]
+       [] p.k2 = "prop"  -> [d EXCEPT !.prop = 100000]
 
 AltPol(p) ==
   LET d == DefPol(p.fee) IN
@@ -70,11 +88,16 @@ AltPol(p) ==
 
 IsMain(p, k) == \E i \in DOMAIN Topo(p.topo).main : Topo(p.topo).main[i] = k
 FocusChan(p) == Topo(p.topo).main[p.focus]
+SecondChan(p) == IF p.g = 0 THEN 0 ELSE Topo(p.topo).main[p.g]
+(* p.priv: the payer's first main channel is unannounced (known from the first-hop set only) *)
+PrivChan(p) == IF p.priv THEN Topo(p.topo).main[1] ELSE 0
+FhScid(p, k) == IF k = PrivChan(p) THEN 700 + k ELSE k
 HintChan(p) == Topo(p.topo).main[Len(Topo(p.topo).main)]
 
 Chan(p, k) ==
   LET ab == Topo(p.topo).chans[k]
       fwd == IF k = FocusChan(p) THEN FocusPol(p)
+             ELSE IF k = SecondChan(p) THEN SecondPol(p)
              ELSE IF k = Topo(p.topo).main[1] /\ p.sh = "eq"
                \* the first main channel is shared by the parts: exactly enough for ONE part of the full amount
                THEN [DefPol(p.fee) EXCEPT !.max = NeedMain(p.topo, p.fee, p.amt, 1)]
@@ -96,7 +119,7 @@ FirstHops(p) ==
   IN IF p.fh = "none" THEN [some |-> FALSE, list |-> <<>>]
      ELSE [some |-> TRUE,
            list |-> [i \in 1..Len(mine) |->
-                       [scid |-> mine[i], peer |-> T.chans[mine[i]][2], min |-> mn(mine[i]), limit |-> lim(mine[i])]]]
+                       [scid |-> FhScid(p, mine[i]), peer |-> T.chans[mine[i]][2], min |-> mn(mine[i]), limit |-> lim(mine[i])]]]
 
 Hints(p) ==
   IF ~p.hint THEN <<>>
@@ -107,7 +130,8 @@ Hints(p) ==
 
 Case(p) ==
   LET T == Topo(p.topo)
-      ks == SelectSeq([k \in 1..Len(T.chans) |-> k], LAMBDA k : ~(p.hint /\ k = HintChan(p)))
+      ks == SelectSeq([k \in 1..Len(T.chans) |-> k], LAMBDA k : ~(p.hint /\ k = HintChan(p)) /\ k # PrivChan(p))
+      alts == SelectSeq([k \in 1..Len(T.chans) |-> k], LAMBDA k : ~IsMain(p, k))
       fee1 == NeedMain(p.topo, p.fee, p.amt, 1) - p.amt
   IN [n |-> T.n, payer |-> 0, payee |-> T.payee,
       chans |-> [i \in 1..Len(ks) |-> Chan(p, ks[i])],
@@ -120,8 +144,14 @@ Case(p) ==
       max_len |-> CASE p.lim = "len_eq" -> Len(T.main) [] p.lim = "len_below" -> Max2(1, Len(T.main) - 1)
                     [] OTHER -> 19,
       final_cltv |-> 42, mpp |-> p.mpp, sat |-> p.sat,
-      failed |-> IF p.lim = "failed_alt" THEN SelectSeq([k \in 1..Len(T.chans) |-> k], LAMBDA k : ~IsMain(p, k))
-                 ELSE IF p.lim = "failed_main" THEN <<FocusChan(p)>> ELSE <<>>,
+      failed |-> IF p.lim = "failed_alt" THEN alts
+                 ELSE IF p.lim = "failed_main" THEN <<FocusChan(p)>>
+                 ELSE CASE p.fail = "none" -> <<>>
+                        [] p.fail = "hint" -> <<900>>
+                        [] p.fail = "fh"   -> <<FhScid(p, T.main[1])>>
+                        [] p.fail = "both" -> <<900, FhScid(p, T.main[1])>>
+                        [] p.fail = "mid"  -> <<T.main[2]>>
+                        [] p.fail = "alt"  -> alts,
       scorer |-> [params |-> 0, seed |-> 0],
       tag |-> p]
 
@@ -130,30 +160,33 @@ CONSTANTS Topos,     \* subset of 1..6
           Amts      \* subset of {1, 1000, 100000, 2000000}
 Foci(t) == 1..Len(Topo(t).main)
 Fees == {"zero", "normal", "baseonly", "extreme"}
-Fams == {"A", "B", "C", "D", "E"}
+Fams == {"A", "B", "C", "D", "E", "F", "G"}
+Long(t) == t > 6
 
 Base == [fam |-> "x", topo |-> 1, focus |-> 1, amt |-> 1000, fee |-> "normal", min |-> "low", max |-> "big",
          cap |-> "none", state |-> "ok", fh |-> "none", hint |-> FALSE, mpp |-> FALSE, paths |-> 1,
-         lim |-> "loose", alt |-> "same", sat |-> 2, sh |-> "big"]
+         lim |-> "loose", alt |-> "same", sat |-> 2, sh |-> "big",
+         g |-> 0, k2 |-> "none", priv |-> FALSE, fail |-> "none"]
 
 (* the cases of family fam on topology t with amount a *)
 Fam(fam, t, a) ==
   LET B0 == [Base EXCEPT !.fam = fam, !.topo = t, !.amt = a] IN
   CASE fam = "A" ->   \* htlc_minimum / htlc_maximum of one hop around the amount it carries
-       IF a = 1 THEN {} ELSE
+       IF a = 1 \/ Long(t) THEN {} ELSE
        {[B0 EXCEPT !.focus = f, !.fee = fe, !.min = mn, !.max = mx,
                    !.mpp = m, !.paths = IF m THEN 3 ELSE 1, !.alt = al] :
           f \in Foci(t), fe \in Fees,
           mn \in {"low", "eq", "above", "x2", "x4"}, mx \in {"below", "eq", "above", "big"},
           m \in BOOLEAN, al \in {"same", "off"}}
     [] fam = "B" ->   \* capacity, disabled / missing updates, saturation
-       IF a \notin {1, 100000} THEN {} ELSE
+       IF a \notin {1, 100000} \/ Long(t) THEN {} ELSE
        {[B0 EXCEPT !.focus = f, !.fee = fe, !.state = st, !.cap = cp,
                    !.max = mx, !.mpp = m, !.paths = IF m THEN 3 ELSE 1, !.sat = s, !.alt = al] :
           f \in Foci(t), fe \in {"zero", "normal"},
           st \in {"ok", "disabled", "noupdate", "norev"}, cp \in {"none", "eq", "big"}, mx \in {"eq", "big"},
           m \in BOOLEAN, s \in {0, 2}, al \in {"same", "off"}}
     [] fam = "C" ->   \* first hops and route hints
+       IF Long(t) THEN {} ELSE
        {[B0 EXCEPT !.focus = f, !.fee = fe, !.fh = h, !.hint = hi,
                    !.max = mx, !.mpp = m, !.paths = IF m THEN 3 ELSE 1, !.alt = al] :
           f \in {1, 2}, fe \in {"zero", "normal", "extreme"},
@@ -164,13 +197,36 @@ Fam(fam, t, a) ==
           fe \in Fees,
           l \in {"loose", "fee_eq", "fee_below", "cltv_eq", "cltv_below", "cltv_slack", "len_eq", "len_below",
                  "failed_alt", "failed_main"},
-          m \in BOOLEAN, al \in {"same", "free", "off"}}
+          m \in BOOLEAN, al \in IF Long(t) THEN {"same"} ELSE {"same", "free", "off"}}
     [] fam = "E" ->   \* amounts no single channel can carry -> multi-part over parallel / shared channels
        IF t \notin {3, 4, 5, 6} \/ a = 1 THEN {} ELSE
        {[B0 EXCEPT !.focus = f, !.fee = fe, !.max = mx, !.alt = al,
                    !.mpp = TRUE, !.paths = pc, !.sat = s, !.sh = sh] :
           f \in Foci(t), fe \in Fees, sh \in {"big", "eq"},
           mx \in {"half", "eq", "below", "big"}, al \in {"half", "same"}, pc \in {2, 3, 10}, s \in {0, 2}}
+    [] fam = "F" ->   \* single paths of 4-6 hops: an htlc_minimum above the carried amount at EVERY hop position
+                      \* (first, middle, last), proportional fees at every other position (fee classes) or at one
+                      \* position only (k2 = "prop"), a second raise / an htlc_maximum at / above the un-raised
+                      \* amount at another position; MPP-capable payee (the router may raise) and not
+       IF ~Long(t) \/ a = 1 THEN {} ELSE
+       {q \in {[B0 EXCEPT !.focus = f, !.fee = fe, !.min = mn, !.g = gk[1], !.k2 = gk[2],
+                          !.mpp = m, !.paths = IF m THEN 3 ELSE 1] :
+                 f \in Foci(t), fe \in Fees, mn \in {"eq", "above", "x2", "n2", "n3", "n3above"}, m \in BOOLEAN,
+                 gk \in {<<0, "none">>} \cup (Foci(t) \X {"min2", "maxeq", "max2", "prop"})} :
+          q.g # q.focus /\ (q.mpp \/ q.g = 0)}
+    [] fam = "G" ->   \* retries: previously_failed_channels names a route-hint hop, the (un)announced first hop,
+                      \* both, a middle channel of the main path, or every alternative channel
+       IF a \notin {1000, 100000} THEN {} ELSE
+       {q \in {[B0 EXCEPT !.fee = fe, !.fh = h, !.priv = pv, !.hint = hi, !.fail = fl,
+                          !.mpp = m, !.paths = IF m THEN 3 ELSE 1, !.alt = al] :
+                 fe \in {"zero", "normal"}, h \in {"none", "big"}, pv \in BOOLEAN, hi \in BOOLEAN,
+                 fl \in {"hint", "fh", "both", "mid", "alt"}, m \in BOOLEAN,
+                 al \in IF Long(t) THEN {"same"} ELSE {"same", "off"}} :
+          /\ q.priv => q.fh = "big"
+          /\ q.fail \in {"hint", "both"} => q.hint
+          /\ q.fail \in {"fh", "both"} => q.fh = "big"
+          /\ q.fail = "mid" => Len(Topo(t).main) >= 3
+          /\ q.fail = "alt" => ~Long(t)}
 
 (* level 0: one marker state per (family, topology, amount), so that TLC's workers generate the
    partitions in parallel; level 1: the cases *)
